@@ -169,6 +169,15 @@ EDITS = [
     ("pq_extend_no_reserve", PQ, "            self.reserve(min);\n            better_to_rebuild", "            better_to_rebuild", 0, "mutant"),
     ("dq_extend_no_rebuild", DQ, "            self.store.extend(iter);\n            self.heap_build();", "            self.store.extend(iter);", 0, "mutant"),
     ("dq_extend_inverted", DQ, "        if rebuild {\n            self.store.extend(iter);", "        if !rebuild {\n            self.store.extend(iter);", 0, "mutant"),
+    # ---- unwinding (SrcEquivPanic): statement orders that only matter when something panics
+    ("pq_push_count_after_sift", PQ, "        self.store.size += 1;\n        self.bubble_up(Position(i), Index(i));",
+     "        self.bubble_up(Position(i), Index(i));\n        self.store.size += 1;", 0, "mutant"),
+    ("dq_push_count_after_sift", DQ, "        self.store.size += 1;\n        self.bubble_up(Position(i), Index(i));",
+     "        self.bubble_up(Position(i), Index(i));\n        self.store.size += 1;", 0, "mutant"),
+    ("dq_bubble_up_move_before_compare", DQ, "                (true, false) => Self::bubble_up_min(map, &mut hole, priority),",
+     "                (true, false) => {\n                    unsafe { hole.move_from(parent, parent_index) };\n                    Self::bubble_up_min(map, &mut hole, priority)\n                }", 0, "mutant"),
+    ("hole_drop_reversed_writes", ST, "            *self.heap.get_unchecked_mut(self.position.0) = self.map_position;\n            *self.qp.get_unchecked_mut(self.map_position.0) = self.position;",
+     "            *self.qp.get_unchecked_mut(self.map_position.0) = self.position;\n            *self.heap.get_unchecked_mut(self.position.0) = self.map_position;", 0, "mutant"),
     ("dq_comment_only", DQ, "fn heapify_min(&mut self, mut i: Position) {",
      "fn heapify_min(&mut self, mut i: Position) {\n        // trickle down on a min level", 0, "neutral"),
     ("comment_only", PQ, "fn heapify(&mut self, mut i: Position) {",
